@@ -5,7 +5,7 @@
 set -u
 src=$(realpath "$1"); name=$2; shift 2
 out=/verif/seeded/$name; mkdir -p "$out"
-cp "$src/patch.diff" "$src/demo.py" "$out/" ; cp "$src/meta.json" "$out/agent_meta.json" 2>/dev/null
+if [ "$src" != "$(realpath $out)" ]; then cp "$src/patch.diff" "$src/demo.py" "$out/" ; cp "$src/meta.json" "$out/agent_meta.json" 2>/dev/null; fi
 wt=$(mktemp -d /tmp/vseed.XXXXXX)
 base=${BASE:-HEAD}
 git -C /repo worktree add -q --detach "$wt" "$base" || exit 2
